@@ -96,6 +96,9 @@ pub enum JavaHist {
     Sibling(Sibling),
     /// a first process is crashed by the shim at its k-th sink write, then a clean re-run
     Torso(u64),
+    /// for `--test-file` jobs: the class files of the same description were generated into the
+    /// directory first (the usual order of the two commands)
+    ClassesFirst,
 }
 
 #[derive(Clone, Debug, PartialEq)]
@@ -188,6 +191,7 @@ impl Perturb {
                 JavaHist::LongerStale(n) => json!({"longer_stale": n}),
                 JavaHist::Sibling(s) => json!({"sibling": s.to_json()}),
                 JavaHist::Torso(k) => json!({"torso": k}),
+                JavaHist::ClassesFirst => json!("classes_first"),
             },
         })
     }
@@ -220,6 +224,7 @@ impl Perturb {
         p.wr_crash_at = v["wr_crash_at"].as_u64();
         p.java_hist = match &v["java_hist"] {
             Value::String(s) if s == "same" => JavaHist::Same,
+            Value::String(s) if s == "classes_first" => JavaHist::ClassesFirst,
             Value::Object(o) if o.contains_key("longer_stale") => JavaHist::LongerStale(o["longer_stale"].as_u64()? as u32),
             Value::Object(o) if o.contains_key("torso") => JavaHist::Torso(o["torso"].as_u64()?),
             Value::Object(o) if o.contains_key("sibling") => JavaHist::Sibling(sibling_from_json(&o["sibling"])?),
@@ -528,7 +533,7 @@ const ENV_KEYS: [&str; 34] = [
 const ENV_VALS: [&str; 14] = ["", "1", "0", "C", "en_US.UTF-8", "tr_TR.UTF-8", "xterm-256color", "dumb", "/nonexistent", "/tmp", "Europe/Paris", "always", "315532800", "true"];
 
 /// Swarm-style draw of the perturbation vector.
-pub fn draw_perturb(rng: &mut Rng, backend: Backend, ref_out: &ProcOut) -> Perturb {
+pub fn draw_perturb(rng: &mut Rng, backend: Backend, ref_out: &ProcOut, has_test_file: bool) -> Perturb {
     let mut p = Perturb::canonical();
     let enabled = rng.next(); // bit mask of enabled kinds for this run
     let on = |bit: u32| (enabled >> bit) & 1 == 1;
@@ -622,7 +627,9 @@ pub fn draw_perturb(rng: &mut Rng, backend: Backend, ref_out: &ProcOut) -> Pertu
             }
         }
     }
-    if backend == Backend::Java {
+    if backend == Backend::Java && has_test_file && rng.below(2) == 0 {
+        p.java_hist = JavaHist::ClassesFirst;
+    } else if backend == Backend::Java {
         p.java_hist = match rng.below(6) {
             0 | 1 => JavaHist::Empty,
             2 => JavaHist::Same,
@@ -699,6 +706,7 @@ fn note_enabled(p: &Perturb, st: &mut RunStats) {
         JavaHist::LongerStale(_) => bump(&mut st.enabled, "java_dir_longer_stale_files", 1),
         JavaHist::Sibling(_) => bump(&mut st.enabled, "java_dir_sibling_output", 1),
         JavaHist::Torso(_) => bump(&mut st.enabled, "java_dir_crash_torso", 1),
+        JavaHist::ClassesFirst => bump(&mut st.enabled, "java_dir_classes_generated_first", 1),
     }
 }
 
@@ -791,6 +799,15 @@ pub fn execute(ctx: &Ctx, wd: &WorkerDir, job: &Job, p: &Perturb, st: &mut RunSt
                 st.procs += 1;
                 let _ = std::fs::remove_dir_all(&jout);
                 write_tree(&jout, &sr.files, None);
+                clear = false;
+            }
+            JavaHist::ClassesFirst => {
+                // the class-generation command of the same source and options, into the same directory
+                let cjob = Job { extra_args: job.extra_args.iter().filter(|a| *a != "--test-file" && !a.ends_with("_test_vectors.json")).cloned().collect(), ..job.clone() };
+                let cr = reference(ctx, wd, &cjob, &text);
+                st.procs += 1;
+                let _ = std::fs::remove_dir_all(&jout);
+                write_tree(&jout, &cr.files, None);
                 clear = false;
             }
             JavaHist::Torso(k) => {
@@ -901,6 +918,7 @@ pub fn execute(ctx: &Ctx, wd: &WorkerDir, job: &Job, p: &Perturb, st: &mut RunSt
                 if job.backend == Backend::Java {
                     // after a crashed earlier run stray temporary files may legitimately remain: only the
                     // class files of the description are judged then (as for a sibling's leftovers)
+                    // (ClassesFirst: the class files are extra files of another command; only the test file is judged)
                     let exact = matches!(p.java_hist, JavaHist::Empty | JavaHist::Same | JavaHist::LongerStale(_)) && p.prev_run.is_none();
                     if let Some(d) = compare_java(&r, &got, exact) {
                         let inv = if matches!(p.java_hist, JavaHist::Empty) { "I1" } else { "I3" };
@@ -1038,7 +1056,7 @@ pub fn run_one(ctx: &Ctx, wd: &WorkerDir, seed: u64, run: u64) -> RunResult {
     }
     let text = job.text(&ctx.corpus);
     let r = reference(ctx, wd, &job, &text);
-    let p = draw_perturb(&mut rng, job.backend, &r);
+    let p = draw_perturb(&mut rng, job.backend, &r, job.extra_args.iter().any(|a| a == "--test-file"));
     if violation.is_none() {
         violation = execute(ctx, wd, &job, &p, &mut st);
     }
